@@ -659,6 +659,27 @@ def check_defaults(ctx, num=5):
            construct="constant defaults", detail=f"parameters: {gd.params()}; names read: {reads}")
 
 
+def check_seed_untouched(ctx, num=3):
+    """`different seeds give different workloads`: on its way from the parameters to default_rng the seed is only handed on.  Wherever the package stores
+    under the key 'random_seed', the value stored is a plain name / field / literal — never an expression computed from a seed (a modulus, a
+    truncation, `or <default>` merge distinct seeds)."""
+    P = ctx.P
+    n = 0
+    for f in _funcs(P):
+        for st in own_nodes(f.node):
+            tg = st.targets if isinstance(st, ast.Assign) else ([st.target] if isinstance(st, (ast.AugAssign, ast.AnnAssign)) else [])
+            for t in tg:
+                if isinstance(t, ast.Subscript) and isinstance(t.slice, ast.Constant) and t.slice.value == "random_seed":
+                    n += 1
+                    v = getattr(st, "value", None)
+                    plain = isinstance(st, ast.Assign) and v is not None and (isinstance(v, (ast.Name, ast.Constant)) or norm.attr_chain(v) is not None
+                                                                          or (isinstance(v, ast.BinOp) and isinstance(v.op, ast.Add) and all(
+                                                                              isinstance(x, (ast.Name, ast.Constant)) or norm.attr_chain(x) is not None for x in (v.left, v.right))))
+                    ctx.ob(num, "K6", "a seed is handed on as it is (or as start + index): what is stored under 'random_seed' is never computed from a seed by an operation that can "
+                           "make two seeds equal", plain, f, st, construct="store to [..]['random_seed']", detail=stmt_text(st))
+    ctx.ob(num, "K6", "the stores under the key 'random_seed' were examined", n >= 1, None, None, file=SIM, construct="'random_seed' stores", detail=f"{n} store(s)", nontrivial=False)
+
+
 def check_workload_driven_by_ticks(ctx, num=6):
     """The workload a run sees must not depend on the cluster or the policy it is run with: inside run_simulator the workload object is
     stepped once per tick (C06#3) and nothing else is ever asked of it or done to it — the executor's or scheduler's state cannot steer it."""
@@ -694,6 +715,7 @@ def check_workload_driven_by_ticks(ctx, num=6):
 
 
 def run(ctx):
+    check_seed_untouched(ctx, 3)
     check_workload_driven_by_ticks(ctx, 6)
     check_defaults(ctx, 5)
     check_workload_per_run(ctx, 6)
